@@ -351,6 +351,14 @@ def handleHttpE2e : Handler := fun inp out => do
   let mut_ := optStrField inp "mut"
   let injected := mut_.startsWith "inject" || boolFieldD inp "missingLedger" || boolFieldD inp "outdated"
   let expect := if injected then "" else optStrField inp "expect"
+  -- the directed requests state the answer they must get
+  if mut_.startsWith "directed:" then
+    let okExpect := if expect = "2xx" then status ≥ 200 && status < 300
+      else if expect = "4xx" then status ≥ 400 && status < 500
+      else if expect = "409" then status = 409
+      else true
+    if !okExpect then
+      fails := fails ++ [s!"{mut_}: answered {status} {optStrField out "errorCode"}, expected {expect}"]
   let tags := [s!"status:{cls}", s!"{routeFamily (optStrField inp "route")}:{cls}"] ++
     (if expect = "4xx" then [s!"client-invalid:{cls}"] else []) ++
     (if status ≥ 500 then [s!"5xx:{optStrField inp "route"}"] else []) ++
@@ -358,10 +366,65 @@ def handleHttpE2e : Handler := fun inp out => do
   pure { model := Json.null, agree := true, prop := fails.isEmpty, propModel := true,
          nontrivial := status ≥ 400 && status < 500,
          tags := tags, note := "; ".intercalate fails,
-         sig := if fails.isEmpty then "" else s!"C38:effect-on-refused-request:{optStrField inp "route"}" }
+         sig := if fails.isEmpty then "" else
+           (if mut_.startsWith "directed:" then s!"C38:{mut_}" else s!"C38:effect-on-refused-request:{optStrField inp "route"}") }
+
+/-! ### tplrun (C37 end to end; C38 on the template-run route) -/
+
+/-- cursor texts that `UnmarshalCursor` cannot decode: the answer must be a client error -/
+def undecodableKind (k : String) : Bool :=
+  ["not-base64", "empty", "b64-text", "b64-null", "b64-array", "b64-number", "b64-string", "b64-truncated-json",
+   "pageSize-string", "offset-string", "offset-negative", "order-bad", "std-b64-binary", "damaged", "truncated",
+   "random-text", "random-b64"].contains k
+
+def pageKeys (pages : List Json) : Json := Json.arr (pages.map fun p => (p.getObjVal? "keys").toOption.getD Json.null).toArray
+
+def handleTplRun : Handler := fun inp out => do
+  let want := optStrField inp "prop"
+  let run ← arrField out "run"
+  let list ← arrField out "list"
+  let bad ← arrField out "bad"
+  let changed ← arrField out "changed"
+  let events ← arrField out "events"
+  let mut fails : List (String × String) := []
+  let mut tags : List String := [s!"template:{optStrField inp "template"}", s!"pages:{if run.length ≥ 3 then "3+" else toString run.length}"]
+  -- C37: the template run, page after page, is the direct list query it describes
+  for p in run ++ list do
+    if natD p "status" ≠ 200 then
+      fails := fails ++ [("C37", s!"a page answered {natD p "status"}: {(optStrField p "err").take 160}")]
+  if optStrField out "resource" ≠ optStrField inp "resource" then
+    fails := fails ++ [("C37", s!"the run answers resource `{optStrField out "resource"}`, the template says `{optStrField inp "resource"}`")]
+  if pageKeys run != pageKeys list then
+    fails := fails ++ [("C37", s!"pages of the template run {(pageKeys run).compress} differ from the pages of the direct list query {(pageKeys list).compress}")]
+  -- C38: malformed cursors
+  let mut sig := ""
+  for b in bad do
+    let kind := optStrField b "kind"
+    let status := natD b "status"
+    let cls := if optStrField b "panic" ≠ "" then "panic" else s!"{status / 100}xx"
+    if optStrField b "panic" ≠ "" then
+      fails := fails ++ [("C38", s!"cursor `{kind}`: panic escaped the router: {(optStrField b "panic").take 160}")]
+    if undecodableKind kind then
+      tags := tags ++ [s!"undecodable-cursor:{cls}"]
+      if !(status ≥ 400 && status < 500) then
+        fails := fails ++ [("C38", s!"undecodable cursor `{kind}` on a {optStrField inp "resource"} template answered {status} {optStrField b "errorCode"}")]
+        if sig = "" then sig := s!"C38:template-run-undecodable-cursor-{status}:{optStrField inp "resource"}"
+    else
+      -- decodable but meaningless cursors (no sort column, another resource's cursor, unknown filter operator):
+      -- recorded; on the unchanged tree the real stack answers 500 to some of them (reported observations)
+      tags := tags ++ [s!"decodable-cursor:{kind}:{cls}"]
+  if !changed.isEmpty || !events.isEmpty then
+    fails := fails ++ [("C38", s!"read-only requests changed {Json.arr changed.toArray |>.compress} / published {events.length} event(s)")]
+  let sel (p : String) : Bool := want = "" || p = want
+  let selFails := (fails.filter (sel ·.1)).map (fun (p, w) => s!"{p}: {w}")
+  pure { model := Json.null, agree := true, prop := selFails.isEmpty, propModel := true,
+         nontrivial := run.length ≥ 2 && bad.length ≥ 10,
+         tags := dedup tags, note := "; ".intercalate (selFails.take 4),
+         sig := if selFails.isEmpty || !(sel "C38") then "" else sig }
 
 def handlers : List (String × Handler) := [
   ("httpe2e", handleHttpE2e),
+  ("tplrun", handleTplRun),
   ("sqlfault", handleSqlFault),
   ("features", handleFeatures),
   ("multiledger", handleMulti)
